@@ -121,7 +121,7 @@ def _shard_worker(args):
         st = {"cases": 0, "evals": 0, "nontrivial": 0, "viol": [], "samples": [], "status": Counter(),
               "outcomes": set(), "extra": Counter(), "seen": set(), "dups": 0}
         batch = []
-        timeout = getattr(mod, "TIMEOUT", 30.0)
+        timeout = getattr(mod, "TIMEOUT", 12.0)
 
         def flush():
             if not batch:
